@@ -510,14 +510,14 @@ def k4(prog, rep):
     be = list(f.calls("be32enc"))
     ok = len(be) == 1 and show(norm(be[0].arg(0))) == "ivec" and show(norm(be[0].arg(1))) == "(i + 1)"
     i0 = [e for e in f.all_elems() if e.is_assign and e.op == "=" and show(norm(e.kid(0))) == "i" and norm(e.kid(1)) == ("c", 0)]
-    lim = any(op == "<" and show(L) == "(i * 32)" and show(R) == "dkLen" for cond, truth in f.edge_conds(be[0]) for op, L, R, _, _ in cond_atoms(cond, truth)) if be else False
+    lim = any(op == "<" and show(L) == "(i << 5)" and show(R) == "dkLen" for cond, truth in f.edge_conds(be[0]) for op, L, R, _, _ in cond_atoms(cond, truth)) if be else False
     rep.check(ok and bool(i0) and lim, "K4-pbkdf2", "block index INT(i+1), big-endian 4 bytes, i from 0 while 32*i < dkLen", f.loc, "", function=f.name, construct="index")
     calls = [(c.callee.replace("_internal", ""),) + tuple(show(norm(a)) for a in c.args[:3]) for c in sorted(f.calls(), key=lambda c: (c.line, c.i))
              if c.callee and (c.callee.startswith("HMAC_SHA256") or c.callee == "memcpy")]
     want = [("HMAC_SHA256_Init", "&Phctx", "passwd", "passwdlen"), ("memcpy", "&PShctx", "&Phctx", "208"), ("HMAC_SHA256_Update", "&PShctx", "salt", "saltlen"),
             ("memcpy", "&hctx", "&PShctx", "208"), ("HMAC_SHA256_Update", "&hctx", "ivec", "4"), ("HMAC_SHA256_Final", "U", "&hctx", "tmp32"), ("memcpy", "T", "U", "32"),
             ("memcpy", "&hctx", "&Phctx", "208"), ("HMAC_SHA256_Update", "&hctx", "U", "32"), ("HMAC_SHA256_Final", "U", "&hctx", "tmp32"),
-            ("memcpy", "&buf[(i * 32)]", "T", "clen")]
+            ("memcpy", "&buf[(i << 5)]", "T", "clen")]
     rep.check(calls == want, "K4-pbkdf2", "U_1 = PRF(P, S || INT(i)); U_j = PRF(P, U_{j-1}); T = U_1 ^ ... ^ U_c; copied to buf + 32 i", f.loc,
               "first difference at call %s" % next((n for n, (a, b) in enumerate(zip(calls, want)) if a != b), min(len(calls), len(want))), function=f.name, construct="sequence")
     xr = [e for e in f.all_elems() if e.is_assign and e.op == "^=" and show(norm(e.kid(0))) == "T[k]" and show(norm(e.kid(1))) == "U[k]"]
@@ -527,7 +527,7 @@ def k4(prog, rep):
     rep.check(okx and bool(j0) and jl, "K4-pbkdf2", "iterations j = 2..c, XOR of all 32 bytes", f.loc, "", function=f.name, construct="iterations")
     cl = sorted((show(norm(e.kid(1)))) for e in f.all_elems() if e.is_assign and show(norm(e.kid(0))) == "clen")
     g = [e for e in f.all_elems() if e.is_assign and show(norm(e.kid(0))) == "clen" and norm(e.kid(1)) == ("c", 32)]
-    okc = cl == ["(dkLen - (i * 32))", "32"] and g and any(op == ">" and show(L) == "clen" and R == ("c", 32) for cond, truth in f.edge_conds(g[0]) for op, L, R, _, _ in cond_atoms(cond, truth))
+    okc = cl == ["(dkLen - (i << 5))", "32"] and g and any(op == ">" and show(L) == "clen" and R == ("c", 32) for cond, truth in f.edge_conds(g[0]) for op, L, R, _, _ in cond_atoms(cond, truth))
     rep.check(bool(okc), "K4-pbkdf2", "last block truncated: clen = min(32, dkLen - 32 i)", f.loc, "%s" % cl, function=f.name, construct="clen")
 
 
